@@ -256,12 +256,31 @@ func taskrunEngine(raw json.RawMessage) (res interface{}, err error) {
 				}
 				sd := scheduler.NewScheduler(tr)
 				sd.VerifSetPause(2 * time.Millisecond)
+				if st.AfterMs < 0 { // Scheduler.Cancel completed BEFORE the run is started
+					mu.Lock()
+					obs.CancelCalls++
+					mu.Unlock()
+					t0 := time.Now()
+					sd.Cancel()
+					mu.Lock()
+					obs.CancelMs = append(obs.CancelMs, time.Since(t0).Milliseconds())
+					obs.CancelNs = append(obs.CancelNs, time.Now().UnixNano())
+					mu.Unlock()
+				}
 				if st.AfterMs > 0 { // Scheduler.Cancel from another goroutine, AfterMs into the run
 					cancelWg.Add(1)
+					mu.Lock()
+					obs.CancelCalls++
+					mu.Unlock()
 					go func(ms int) {
 						defer cancelWg.Done()
 						time.Sleep(time.Duration(ms) * time.Millisecond)
+						t0 := time.Now()
 						sd.Cancel()
+						mu.Lock()
+						obs.CancelMs = append(obs.CancelMs, time.Since(t0).Milliseconds())
+						obs.CancelNs = append(obs.CancelNs, time.Now().UnixNano())
+						mu.Unlock()
 					}(st.AfterMs)
 				}
 				e = sd.Schedule(g)
